@@ -76,6 +76,9 @@ def load_known():
 
 def run_rules(F, rule_ids, cfg="log"):
     """Run rules on a Facts object. Returns list of instance dicts (+ per-rule notes)."""
+    from . import poly as _poly
+    from .mir import expand_local_calls as _exp
+    _poly.EXPAND = lambda t, F=F: _exp(F, t)
     all_inst = []
     notes = {}
     for rid in rule_ids:
